@@ -545,6 +545,36 @@ pub fn respellings(r: &mut Rng, a: &IG) -> Vec<(&'static str, IG)> {
         _ => {}
     }
     out.push(("GC of one", IG::Collection(vec![a.clone()])));
+    // the same point set with an EMPTY member somewhere in a collection / multi-geometry
+    if !a.is_empty() {
+        let empty = |r: &mut Rng| match r.below(5) {
+            0 => IG::Polygon(vec![]),
+            1 => IG::MultiPolygon(vec![]),
+            2 => IG::MultiLineString(vec![]),
+            3 => IG::MultiPoint(vec![]),
+            _ => IG::LineString(vec![]),
+        };
+        let mut members: Vec<IG> = match a {
+            IG::Collection(v) => v.clone(),
+            x => vec![x.clone()],
+        };
+        let at = r.below(members.len() as u64 + 1) as usize;
+        members.insert(at, empty(r));
+        out.push(("GC with an empty member", IG::Collection(members)));
+        match a {
+            IG::MultiPolygon(v) if !v.is_empty() => {
+                let mut w = v.clone();
+                w.insert(r.below(w.len() as u64 + 1) as usize, vec![]);
+                out.push(("MultiPolygon with an empty member", IG::MultiPolygon(w)));
+            }
+            IG::MultiLineString(v) if !v.is_empty() => {
+                let mut w = v.clone();
+                w.insert(r.below(w.len() as u64 + 1) as usize, vec![]);
+                out.push(("MLS with an empty member", IG::MultiLineString(w)));
+            }
+            _ => {}
+        }
+    }
     // keep only spellings that are themselves in the domain (e.g. MultiPoint->GC with duplicate points is not disjoint)
     out.retain(|(_, g)| g.valid());
     out
